@@ -168,7 +168,7 @@ class PoolGen:
     def forged(self):
         r = self.r
         alter = r.choice(BAD_ALTERS)
-        kind = r.choice(["connect", "update", "update", "peer", "addnode", "withdraw", "hostconnect"])
+        kind = r.choice(["connect", "update", "update", "peer", "addnode", "withdraw", "hostconnect", "legacyhost", "legacyclient"])
         if kind == "connect":
             self.connect(r.choice(NODES), alter=alter)
         elif kind == "hostconnect":
@@ -177,6 +177,12 @@ class PoolGen:
             k = self.conn_for(r.choice(CLIENTS))
             op = {"op": "Connect", "conn": k, "full": True, "kind": "geth", "payout": "", "uri": ""}
             self.emit(self.signed(op, victim, alter))
+        elif kind == "legacyhost":
+            n = r.choice(HOSTS)
+            self.emit(self.signed({"op": "Host", "conn": self.conn_for(n), "kind": "geth", "payout": "", "uri": ""}, n, alter))
+        elif kind == "legacyclient":
+            n = r.choice(CLIENTS)
+            self.emit(self.signed({"op": "Client", "conn": self.conn_for(n), "kind": "geth", "num": 1}, n, alter))
         elif kind == "update":
             self.update(r.choice(NODES), alter=alter)
         elif kind == "peer":
